@@ -562,6 +562,7 @@ func (c *Conn) readChangeCipherSpec() error {
 		}
 		c.readEpoch++
 		c.readSeq = 0
+		c.clearPendingFragments()
 		windowSize := defaultReplayWindowSize
 		if c.config != nil && c.config.ReplayWindow > 0 {
 			windowSize = c.config.ReplayWindow
@@ -780,6 +781,7 @@ func (c *Conn) readRecordOrCCS(expectChangeCipherSpec bool) error {
 			expectChangeCipherSpec = false
 			c.readEpoch++
 			c.readSeq = 0
+			c.clearPendingFragments()
 			// epoch 变更后重建重放窗口，避免新旧 epoch 序列号混淆
 			windowSize := defaultReplayWindowSize
 			if c.config != nil && c.config.ReplayWindow > 0 {
